@@ -64,7 +64,9 @@ type Contract struct {
 	Lets       []*Clause // Label = name
 	Loops      map[int]*LoopSpec
 	Trusted    bool
+	ModifiesRecvSlices bool // default contract: also the backing arrays of slices stored in the receiver object
 	Default    bool // synthesized default contract of an uncontracted function with loops
+	Retains    []string // parameters (byte slices) the function keeps references into: callers must pass memory they own
 	NoAlloc    bool // nothing allocated by a call is reachable afterwards: the allocation counter is unchanged for the caller
 	Inline     bool
 	Where      string
@@ -98,7 +100,7 @@ func clauseTexts(cs []*Clause) string {
 	return strings.Join(ts, ", ")
 }
 
-var clauseRe = regexp.MustCompile(`^(requires|ensures|invariant|modifies|decreases|let|loop|split|trusted|inline|pure|noalloc|use|results)\b(\[[^\]]*\])?\s*(.*)$`)
+var clauseRe = regexp.MustCompile(`^(requires|ensures|invariant|modifies|decreases|let|loop|split|trusted|inline|pure|noalloc|retains|use|results)\b(\[[^\]]*\])?\s*(.*)$`)
 
 // parseContractFile reads //@ blocks from a file. pkgName qualifies unqualified keys.
 var macros = map[string]*Macro{} // key: pkgPath + "." + name
@@ -241,6 +243,9 @@ func parseContractFile(path, pkgName, pkgPath string) ([]*Contract, error) {
 			cur.Inline = true
 		case "noalloc":
 			cur.NoAlloc = true
+		case "retains":
+			cur.Retains = append(cur.Retains, strings.Fields(strings.ReplaceAll(rest, ",", " "))...)
+			last = nil
 		case "pure":
 		}
 		_ = lastList
